@@ -472,7 +472,7 @@ def with_prime(rng):
 SPEC_BASES = [b"/docs", b"/lang", b"/api/v1", b"/d/page.html", b"/ab"]
 
 
-def specificity(rng, order_mode=None):
+def specificity(rng, order_mode=None, wire_=False):
     base = rng.choice(SPEC_BASES)
     names = rng.sample([b"x-a", b"x-b", b"x-c", b"accept-language"], 4)
     star, tie, short, root = base + b"*", base[:-1] + b"*", base[:2] + b"*", b"/*"
@@ -497,7 +497,7 @@ def specificity(rng, order_mode=None):
         # the page itself without an exact rule: the longest wildcard covering it
         best = max([p for p in layout if base.startswith(p[:-1])], key=len)
         pages.append(Page(base, rule_of[best], rule_path=None, prefix=b"SB"))
-    cfg = config(pages)
+    cfg = config(pages, report=WIRE_REPORT if wire_ else None)
     every = [r for pat in layout for r in rule_of[pat]]
     # directed: the exact page under two values of ITS OWN header that the transformation keeps apart (the wildcards' headers absent, then
     # present), then the pages of the wildcards
@@ -523,6 +523,20 @@ def specificity(rng, order_mode=None):
             ops.append(rng.choice(dumps(pages)))
         else:
             ops.append(rng.choice(pool))
+    if wire_:
+        # over the loopback connection: what SendKind::send wrote (the vary line of the most specific rule, the body of the own tuple)
+        wops = []
+        for o in ops:
+            if o[1][0][1] == 4:
+                continue
+            if o[1][0][1] != 0:
+                wops.append(o)
+                continue
+            hdrs = [(h[1][0][1], h[1][1][1]) for h in o[1][4][1]]
+            hdrs = [(n, v) for (n, v) in hdrs if v == v.strip(b" \t")]
+            hdrs = [(n, v) for k, (n, v) in enumerate(hdrs) if n not in [m for (m, _) in hdrs[:k]]]
+            wops.append(pipe.req(o[1][3][1], method=o[1][2][1], headers=hdrs))
+        return mk(cfg, wops, "specificity-wire", spec=False, comp="vary.wire")
     ops += dumps(pages)
     return mk(cfg, ops, "specificity-" + order_mode)
 
@@ -919,6 +933,7 @@ def generate(rng, tier):
         cases += [query_matters(rng) for _ in range(40)]
         cases += [with_prime(rng) for _ in range(40)]
         cases += [specificity(rng, m) for m in ("fwd", "rev", "shuffle") for _ in range(12)]
+        cases += [specificity(rng, m, True) for m in ("fwd", "rev") for _ in range(4)]
         for _ in range(4):
             cases += empty_values(rng)
         cases += [conditional(rng) for _ in range(30)]
@@ -945,6 +960,7 @@ def generate(rng, tier):
         cases += [query_matters(rng) for _ in range(1200)]
         cases += [with_prime(rng) for _ in range(1200)]
         cases += [specificity(rng) for _ in range(1200)]
+        cases += [specificity(rng, None, True) for _ in range(200)]
         for _ in range(60):
             cases += empty_values(rng)
         cases += [conditional(rng) for _ in range(800)]
@@ -971,6 +987,7 @@ def directed(rng, mismatches):
     cases += [query_matters(rng) for _ in range(200)]
     cases += [with_prime(rng) for _ in range(150)]
     cases += [specificity(rng) for _ in range(150)]
+    cases += [specificity(rng, None, True) for _ in range(30)]
     for _ in range(10):
         cases += empty_values(rng)
     cases += [conditional(rng) for _ in range(100)]
